@@ -114,7 +114,18 @@ pub fn check_case(c: &Case, rep: &mut Report) {
     probe.take_accepted(); // drop the connection request the x224 level wrote
     let mut viol: Vec<(String, String)> = Vec::new();
     for (i, n) in c.lens.iter().enumerate() {
-        let p = payload(c.seed, i, *n);
+        // a message is either a plain byte block or, in the structured class, a record of the library's message model
+        // (sized, optional and skipped fields): its frame must carry the bytes the reference encoder gives for it
+        let (p, comp): (Vec<u8>, Option<rdp::model::data::Component>) = if c.class == "structured-messages" {
+            let mut r = Rng::derive(c.seed, "C14-struct", i as u64, *n as u64);
+            let mut g = crate::props::c18a::Gen { r: &mut r, counter: 0 };
+            let (fields, _) = g.message();
+            let mut want = Vec::new();
+            crate::props::c18a::encode_comp(&fields, &mut want);
+            (want, Some(crate::props::c18a::build_comp(&fields, false)))
+        } else {
+            (payload(c.seed, i, *n), None)
+        };
         let exp = expected_frame(level, &p);
         let fault_here = i == c.fault_msg && c.fault != Fault::None;
         probe.set_fault(if fault_here { c.fault } else { Fault::None });
@@ -125,10 +136,13 @@ pub fn check_case(c: &Case, rep: &mut Report) {
         }
         let pc = p.clone();
         let cl = &mut client;
-        let res = mon::guarded(move || match cl {
-            Client::Link(l) => l.write(&pc).map_err(|e| format!("{:?}", e)),
-            Client::Tpkt(t) => t.write(pc).map_err(|e| format!("{:?}", e)),
-            Client::X224(x) => x.write(pc).map_err(|e| format!("{:?}", e)),
+        let res = mon::guarded(move || match (cl, comp) {
+            (Client::Link(l), None) => l.write(&pc).map_err(|e| format!("{:?}", e)),
+            (Client::Tpkt(t), None) => t.write(pc).map_err(|e| format!("{:?}", e)),
+            (Client::X224(x), None) => x.write(pc).map_err(|e| format!("{:?}", e)),
+            (Client::Link(l), Some(m)) => l.write(&m).map_err(|e| format!("{:?}", e)),
+            (Client::Tpkt(t), Some(m)) => t.write(m).map_err(|e| format!("{:?}", e)),
+            (Client::X224(x), Some(m)) => x.write(m).map_err(|e| format!("{:?}", e)),
         });
         let got = probe.accepted();
         let fired = probe.fault_fired();
@@ -289,6 +303,13 @@ pub fn make_case(class: u64, idx: u64, seed: u64, quick: bool) -> Case {
             }
             Case { level, lens: vec![len], caps, fault, fault_msg: 0, class: "fault-sampled", seed }
         }
+        4 => {
+            // records of the message model instead of byte blocks, several on one client
+            let level = LEVELS[(idx % 3) as usize];
+            let n = r.range(1, 4) as usize;
+            let lens: Vec<usize> = (0..n).map(|_| r.range(0, 1 << 30) as usize).collect();
+            Case { level, lens, caps: caps_for(&mut r, idx / 3), fault: Fault::None, fault_msg: 0, class: "structured-messages", seed }
+        }
         _ => {
             // several messages of varying size on ONE client (stale state between messages), optional late fault
             let level = LEVELS[(idx % 3) as usize];
@@ -324,6 +345,7 @@ pub fn run(cfg: &Cfg) -> Report {
         (1, cfg.n(3 * 64 * 400, 3 * 64 * 20000)),
         (2, cfg.n(20_000, 3_000_000)),
         (3, cfg.n(400_000, 50_000_000)),
+        (4, cfg.n(60_000, 3_000_000)),
     ];
     for (class, n) in plan {
         if !cfg.wants(class) {
@@ -376,7 +398,7 @@ pub fn replay(cfg: &Cfg, v: &Value) -> Report {
         caps: v["caps"].as_array().unwrap().iter().map(|x| x.as_u64().unwrap_or(u64::MAX) as usize).collect(),
         fault,
         fault_msg: v["fault_msg"].as_u64().unwrap_or(0) as usize,
-        class: "replay",
+        class: if v["class"] == "structured-messages" { "structured-messages" } else { "replay" },
         seed: v["seed"].as_u64().unwrap_or(1),
     };
     check_case(&c, &mut rep);
